@@ -463,6 +463,8 @@ class Profile:
     weird_renames: bool = True
     p_attr: float = 0.35
     string_keys_only: bool = False   # C02: serde's buffered deserializers cannot parse non-string map keys
+    weird_idents: bool = False       # C09: identifiers that do not follow Rust naming conventions
+    p_rename_all: float = None
 
 
 class Gen:
@@ -480,12 +482,22 @@ class Gen:
         return self.counter
 
     def field_name(self):
+        if self.p.weird_idents and self.r.random() < 0.8:
+            n, p = self.n(), self.prefix.lower()
+            return self.r.choice([f"{p}{n}Bar", f"{p}{n}_Foo", f"_{p}{n}", f"{p}{n}_", f"{p}{n}__x", f"{p.capitalize()}{n}oo",
+                                  f"r#{p}{n}", f"{p}{n}é", f"{p}{n}_ßx", f"{p}{n}HTTPServer", f"{p}{n}_1x", f"{p}_{n}",
+                                  f"{p}{n}aB_cD", f"__{p}{n}"])
         w = self.r.choice(WORDS)
         if self.r.random() < 0.4:
             w += "_" + self.r.choice(WORDS)
         return f"{self.prefix.lower()}{self.n()}_{w}"
 
     def variant_name(self):
+        if self.p.weird_idents and self.r.random() < 0.8:
+            n, p = self.n(), self.prefix.upper()
+            lo = self.prefix.lower()
+            return self.r.choice([f"{p}{n}_x", f"{lo}{n}lower", f"{p}{n}__y", f"_{p}{n}", f"{p}{n}é", f"{p}{n}_Foo_Bar",
+                                  f"{p}{n}HTTPServer", f"{p}{n}_", f"{lo}_{n}", f"{p}{n}aB", f"r#{p}{n}", f"{p}{n}Σx"])
         w = self.r.choice(WORDS).capitalize()
         if self.r.random() < 0.4:
             w += self.r.choice(WORDS).capitalize()
@@ -660,7 +672,7 @@ class Gen:
             used = set()
             it.fields = [self.named_field(it.params, d, allow_self=True, used=used) for _ in range(k)]
             pa = self.p.p_attr
-            if self.r.random() < pa:
+            if self.r.random() < (self.p.p_rename_all if self.p.p_rename_all is not None else pa):
                 it.rename_all = self.r.choice(RULES)
             if self.r.random() < pa * 0.3:
                 it.tag = f"tag{self.n()}"
@@ -686,9 +698,10 @@ class Gen:
         if rep == "untagged":
             it.untagged = True
         pa = self.p.p_attr
-        if self.r.random() < pa:
+        pra = self.p.p_rename_all if self.p.p_rename_all is not None else pa
+        if self.r.random() < pra:
             it.rename_all = self.r.choice(RULES)
-        if self.r.random() < pa * 0.6:
+        if self.r.random() < (pra if self.p.p_rename_all is not None else pa * 0.6):
             it.rename_all_fields = self.r.choice(RULES)
         k = self.r.choice([1, 2, 3, 3, 4, 5])
         kinds = ["unit", "newtype", "struct"] if rep == "internal" else ["unit", "newtype", "tuple", "struct"]
@@ -715,7 +728,7 @@ class Gen:
                 n = self.r.choice([0, 1, 2, 2, 3])
                 used = set()
                 v.fields = [self.named_field(it.params, d, allow_self=True, in_variant=True, used=used) for _ in range(n)]
-                if self.r.random() < pa * 0.5:
+                if self.r.random() < (pra * 0.5 if self.p.p_rename_all is not None else pa * 0.5):
                     v.rename_all = self.r.choice(RULES)
             if self.r.random() < pa * 0.4:
                 v.rename = self.wire_rename()
